@@ -56,6 +56,10 @@ Definition dft_spec (blk : list T) (freqs : list W) (normalize : bool) : option 
     end
   else Some (map (tsum blk) freqs).
 
+(* the block  al * xs + be * ys  (equal lengths) *)
+Definition lincomb (al be : T) (xs ys : list T) : list T :=
+  map (fun xy => al * fst xy + be * snd xy) (combine xs ys).
+
 Fixpoint lsum (l : list T) : T := match l with [] => #0 | x :: r => x + lsum r end.
 Definition mean (l : list T) : T := lsum l / cofz F (Z.of_nat (length l)).
 
